@@ -96,11 +96,24 @@ pub enum Op {
     Replace { target: Target, same: bool, qty: u64, buy: bool },
     Read(ReadKind),
     Rebuild(RebuildPath),
+    /// two ordinary same-price amendments that move `d` units of displayed quantity from one
+    /// resting order to another (the level's aggregates end up unchanged)
+    Transfer { from: Target, to: Target, d: u64 },
+    /// add `n` orders under fresh reserved ids (never re-used) and cancel each right away:
+    /// leaves `n` stale tickets behind (reaches size thresholds random single ops never do)
+    Churn { n: u16, spec: OrderSpec },
+    /// add `n` orders under fresh reserved ids that stay resting
+    Burst { n: u16, spec: OrderSpec },
     /// (metamorphic twin of C07) add an extra order under a reserved id ...
     GhostAdd { spec: OrderSpec },
     /// ... and take it out again right away: 0 cancel, 1 price move, 2 price+quantity to another
     /// price, 3 replace at another price. The pair must leave no trace in any other result.
     GhostRemove { via: u8 },
+}
+
+/// reserved ids for churn / burst orders (never part of a generated id pool, never re-used)
+pub fn bulk_id(k: u64) -> OrderId {
+    OrderId::from_u64(0xB0_1C00_0000_0000 + k)
 }
 
 /// the reserved id of the ghost order (never part of a generated id pool)
@@ -135,6 +148,14 @@ pub struct History {
     /// optional ghost insertion for C07's "add + remove leaves no trace" twin run
     #[serde(default)]
     pub ghost: Option<Ghost>,
+    /// the caller keeps every handle the API returns (Arcs from add_order / update_order /
+    /// iter_orders / snapshot) alive until the end of the history instead of dropping them
+    #[serde(default)]
+    pub hold: bool,
+    /// counter the transaction-id generator starts from (0 = fresh; otherwise restored through
+    /// its public serde form, e.g. a persisted generator near the top of the counter range)
+    #[serde(default)]
+    pub gen_start: u64,
 }
 
 // ------------------------------------------------------------------------------------
@@ -154,6 +175,8 @@ pub struct HistCfg {
     pub w_replace: u32,
     pub w_read: u32,
     pub w_rebuild: u32,
+    /// bulk operations (churn of add+cancel pairs, bursts of resting orders)
+    pub w_bulk: u32,
     /// append a draining match at the end
     pub final_drain: bool,
     pub kind_weights: [u32; 7],
@@ -176,6 +199,7 @@ impl HistCfg {
             w_replace: 4,
             w_read: 4,
             w_rebuild: 4,
+            w_bulk: 1,
             final_drain: false,
             kind_weights: [3, 4, 1, 2, 2, 2, 5],
             increasing_ts_share: 4,
@@ -276,6 +300,23 @@ pub fn op_strategy(cfg: HistCfg, profile: Profile) -> BoxedStrategy<Op> {
         cfg.w_rebuild,
         proptest::sample::select(ALL_REBUILDS.to_vec()).prop_map(Op::Rebuild).boxed(),
     ));
+    let bulk_n = prop_oneof![
+        4 => 1u16..=8,
+        2 => 60u16..=70,
+        2 => 126u16..=132,
+        1 => 250u16..=260,
+        1 => 1u16..=300,
+    ];
+    v.push((
+        cfg.w_bulk * 3,
+        (target(), target(), 1u64..=6).prop_map(|(from, to, d)| Op::Transfer { from, to, d }).boxed(),
+    ));
+    v.push((
+        cfg.w_bulk,
+        (any::<bool>(), bulk_n, gen::order_spec(OrderGenCfg { profile: Profile::Small, zero_display: cfg.zeros, zero_amount: cfg.zeros, kind_weights: cfg.kind_weights }))
+            .prop_map(|(churn, n, spec)| if churn { Op::Churn { n, spec } } else { Op::Burst { n: n.min(80), spec } })
+            .boxed(),
+    ));
     let v: Vec<_> = v.into_iter().filter(|(w, _)| *w > 0).collect();
     proptest::strategy::Union::new_weighted(v).boxed()
 }
@@ -303,12 +344,19 @@ pub fn history(cfg: HistCfg) -> BoxedStrategy<History> {
             price,
             gen::id_pool(6, 12),
             proptest::collection::vec(op_strategy(cfg, profile), 0..=cfg.max_len),
+            any::<bool>(),
+            prop_oneof![
+                7 => Just(0u64),
+                1 => gen::boundary_u64(),
+                1 => (u64::MAX - 40)..=u64::MAX,
+                1 => prop_oneof![Just(9_999_999_999_999_999_990u64), Just(10_000_000_000_000_000_000u64), Just(99_990u64), Just(999_999_999_990u64)],
+            ],
         )
-            .prop_map(move |(price, pool, mut ops)| {
+            .prop_map(move |(price, pool, mut ops, hold, gen_start)| {
                 if cfg.final_drain {
                     ops.push(Op::Match { size: MatchSize::AllPlus1 });
                 }
-                History { zeros: cfg.zeros, price, profile, ts_mode, pool, ops, ghost: None }
+                History { zeros: cfg.zeros, price, profile, ts_mode, pool, ops, ghost: None, hold, gen_start }
             })
     })
     .boxed()
@@ -361,8 +409,11 @@ pub enum OpResult {
     },
     Updated(Result<Option<Order>, String>),
     Read,
+    /// what a read-only call returned (blind replays only)
+    ReadValue(String),
     Rebuilt(bool),
     Ghost,
+    Bulk,
     Aborted,
 }
 
@@ -425,6 +476,65 @@ pub enum Concrete {
     Add(Order),
     Match(u64, OrderId),
     Update(OrderUpdate),
+    Read(ReadKind),
+}
+
+fn sorted_by_id(mut v: Vec<Order>) -> Vec<String> {
+    v.sort_by_key(|o| o.id().to_string());
+    v.iter().map(|o| format!("{:?}", o)).collect()
+}
+
+/// Perform a read-only call and render what it returned (wall-clock fields left out), so that
+/// two runs can be compared on what their reads saw.
+pub fn perform_read(level: &PriceLevel, k: ReadKind) -> Result<String, String> {
+    catch(|| -> Result<String, String> {
+        Ok(match k {
+            ReadKind::Aggregates => format!(
+                "{:?}",
+                (level.price(), level.visible_quantity(), level.hidden_quantity(), level.order_count(), level.total_quantity())
+            ),
+            ReadKind::IterOrders => format!("{:?}", sorted_by_id(level.iter_orders().iter().map(|a| **a).collect())),
+            ReadKind::Snapshot => {
+                let s = level.snapshot();
+                let _ = (s.total_quantity(), s.iter_orders().count(), s.to_string());
+                format!(
+                    "{:?}",
+                    (s.price, s.visible_quantity, s.hidden_quantity, s.order_count, sorted_by_id(s.orders.iter().map(|a| **a).collect()))
+                )
+            }
+            ReadKind::Package => {
+                let p = level.snapshot_package().map_err(|e| e.to_string())?;
+                p.validate().map_err(|e| format!("own package does not validate: {e}"))?;
+                let s = &p.snapshot;
+                format!(
+                    "{:?}",
+                    (p.version, s.price, s.visible_quantity, s.hidden_quantity, s.order_count, sorted_by_id(s.orders.iter().map(|a| **a).collect()))
+                )
+            }
+            ReadKind::SnapshotJson => {
+                let j = level.snapshot_to_json().map_err(|e| e.to_string())?;
+                let v: serde_json::Value = serde_json::from_str(&j).map_err(|e| e.to_string())?;
+                let mut orders: Vec<String> = v["snapshot"]["orders"].as_array().map(|a| a.iter().map(|o| o.to_string()).collect()).unwrap_or_default();
+                orders.sort();
+                format!("{} {} {} {} {:?}", v["version"], v["snapshot"]["price"], v["snapshot"]["visible_quantity"], v["snapshot"]["hidden_quantity"], orders)
+            }
+            ReadKind::Display => level.to_string(),
+            ReadKind::SerdeJson => serde_json::to_string(level).map_err(|e| e.to_string())?,
+            ReadKind::Stats => {
+                let s = level.stats();
+                let _ = (s.average_execution_price(), s.average_waiting_time(), s.time_since_last_execution(), s.to_string(), serde_json::to_string(&*s));
+                format!(
+                    "{:?}",
+                    (s.orders_added(), s.orders_removed(), s.orders_executed(), s.quantity_executed(), s.value_executed())
+                )
+            }
+            ReadKind::Data => {
+                let d = PriceLevelData::from(level);
+                format!("{:?}", (d.price, d.visible_quantity, d.hidden_quantity, d.order_count, sorted_by_id(d.orders)))
+            }
+        })
+    })
+    .unwrap_or_else(|m| Err(format!("panicked: {m}")))
 }
 
 /// Apply a concrete call to a level without any model; returns the comparable outcome.
@@ -451,10 +561,15 @@ pub fn apply_concrete(level: &PriceLevel, gen: &UuidGenerator, c: &Concrete, bud
             Ok(r) => OpResult::Updated(r.map(|o| o.map(|a| *a)).map_err(|e| e.to_string())),
             Err(_) => OpResult::Aborted,
         },
+        Concrete::Read(k) => OpResult::ReadValue(perform_read(level, *k).unwrap_or_else(|e| format!("read failed: {e}"))),
     }
 }
 
 pub struct Interp {
+    /// handles kept alive on behalf of the caller (History::hold)
+    pub hold: bool,
+    pub held: Vec<Arc<Order>>,
+    pub bulk_counter: u64,
     /// concrete calls issued so far (for differential runs on other levels)
     pub concrete: Vec<Concrete>,
     /// known findings that are listed in /verif/known_findings.json (excused, counted)
@@ -509,6 +624,9 @@ fn listing_of(level: &PriceLevel) -> Vec<Order> {
 impl Interp {
     pub fn new(h: &History) -> Self {
         Interp {
+            hold: h.hold,
+            held: Vec::new(),
+            bulk_counter: 0,
             concrete: Vec::new(),
             excuse_kf_c04_1: true,
             excuse_kf_c04_2: true,
@@ -518,7 +636,12 @@ impl Interp {
             ts_mode: h.ts_mode,
             pool: h.pool.iter().map(|s| s.build()).collect(),
             level: PriceLevel::new(h.price),
-            gen: UuidGenerator::new(uuid::Uuid::from_u128(0x5eed)),
+            gen: if h.gen_start == 0 {
+                UuidGenerator::new(uuid::Uuid::from_u128(0x5eed))
+            } else {
+                serde_json::from_value(serde_json::json!({"namespace": uuid::Uuid::from_u128(0x5eed), "counter": h.gen_start}))
+                    .unwrap_or_else(|_| UuidGenerator::new(uuid::Uuid::from_u128(0x5eed)))
+            },
             model: Vec::new(),
             supplied_total: 0,
             seen_txids: HashSet::new(),
@@ -563,7 +686,8 @@ impl Interp {
     }
 
     fn find(&self, id: OrderId) -> Option<usize> {
-        self.model.iter().position(|e| e.id == id)
+        let k = id_key(id);
+        self.model.iter().position(|e| id_key(e.id) == k)
     }
 
     fn resolve(&self, t: Target) -> OrderId {
@@ -597,8 +721,17 @@ impl Interp {
     // invariants evaluated after every operation
 
     fn check_invariants(&mut self, after_match: bool) {
-        let listing = match catch(|| listing_of(&self.level)) {
-            Ok(l) => l,
+        let listing = match catch(|| self.level.iter_orders()) {
+            Ok(l) => {
+                let v: Vec<Order> = l.iter().map(|a| **a).collect();
+                if self.hold {
+                    // the caller keeps the listing it was handed
+                    if self.held.len() < 4096 {
+                        self.held.extend(l);
+                    }
+                }
+                v
+            }
             Err(m) => {
                 self.violate(Oracle::Panic, format!("iter_orders panicked: {m}"));
                 self.dead = true;
@@ -637,25 +770,10 @@ impl Interp {
             }
             Err(m) => self.violate(Oracle::Agg, format!("total_quantity panicked: {m}")),
         }
-        let snap = self.level.snapshot();
-        if snap.visible_quantity as u128 != sum_vis
-            || snap.hidden_quantity as u128 != sum_hid
-            || snap.order_count != listing.len()
-            || snap.orders.len() != listing.len()
-            || snap.price != self.price
-        {
-            self.violate(
-                Oracle::Agg,
-                format!(
-                    "snapshot figures visible={} hidden={} count={} orders={} disagree with the listing ({} / {} / {})",
-                    snap.visible_quantity, snap.hidden_quantity, snap.order_count, snap.orders.len(), sum_vis, sum_hid, listing.len()
-                ),
-            );
-        }
         // C10 listing shape: each id once, non-decreasing timestamps
         let mut seen = HashSet::new();
         for o in &listing {
-            if !seen.insert(o.id()) {
+            if !seen.insert(id_key(o.id())) {
                 self.violate(Oracle::Rebuild, format!("listing shows id {} twice", o.id()));
             }
         }
@@ -700,13 +818,13 @@ impl Interp {
     /// by the last match. Disagreements are model divergences (Rule after a match, Update
     /// otherwise); the model is then re-synchronised from the listing so the history goes on.
     fn reconcile(&mut self, listing: &[Order], after_match: bool) {
-        let by_id: HashMap<OrderId, Order> = listing.iter().map(|o| (o.id(), *o)).collect();
+        let by_id: HashMap<IdKey, Order> = listing.iter().map(|o| (id_key(o.id()), *o)).collect();
         let oracle = if after_match { Oracle::Rule } else { Oracle::Update };
         let mut i = 0;
         let mut problems: Vec<String> = Vec::new();
         while i < self.model.len() {
             let e = &self.model[i];
-            let listed = by_id.get(&e.id).copied();
+            let listed = by_id.get(&id_key(e.id)).copied();
             if listed == Some(e.cur) {
                 self.model[i].tranche_unsynced = false;
                 i += 1;
@@ -771,9 +889,9 @@ impl Interp {
                 }
             }
         }
-        let known: HashSet<OrderId> = self.model.iter().map(|e| e.id).collect();
+        let known: HashSet<IdKey> = self.model.iter().map(|e| id_key(e.id)).collect();
         for o in listing {
-            if !known.contains(&o.id()) {
+            if !known.contains(&id_key(o.id())) {
                 problems.push(format!("the level lists {} which should not rest", brief(o)));
                 self.clock += 1;
                 self.model.push(Entry {
@@ -861,6 +979,58 @@ impl Interp {
                 self.do_read(*k)
             }
             Op::Rebuild(p) => self.do_rebuild(*p),
+            Op::Transfer { from, to, d } => {
+                let a = self.resolve(*from);
+                let b = self.resolve(*to);
+                match (self.find(a), self.find(b)) {
+                    (Some(i), Some(j)) if a != b => {
+                        let x = self.model[i].cur.visible_quantity();
+                        let y = self.model[j].cur.visible_quantity();
+                        // (histories without zero quantities keep at least one unit displayed)
+                        let d = (*d).min(if self.zeros { x } else { x.saturating_sub(1) });
+                        if d > 0 && y.checked_add(d).is_some() {
+                            let _ = self.do_amend(OrderUpdate::UpdateQuantity { order_id: a, new_quantity: x - d }, a, x - d);
+                            if !self.dead {
+                                // (a no-op amendment of the first order leaves less headroom)
+                                let q = self.clamp_amend(b, y + d);
+                                let _ = self.do_amend(OrderUpdate::UpdateQuantity { order_id: b, new_quantity: q }, b, q);
+                            }
+                        }
+                    }
+                    _ => {}
+                }
+                OpResult::Bulk
+            }
+            Op::Churn { n, spec } => {
+                for _ in 0..*n {
+                    if self.dead {
+                        break;
+                    }
+                    self.bulk_counter += 1;
+                    let id = bulk_id(self.bulk_counter);
+                    let mut sp = *spec;
+                    sp.display = sp.display.max(1).min(5);
+                    sp.hidden = sp.hidden.min(5);
+                    if matches!(self.add_with_id(id, sp), OpResult::Added(_)) {
+                        let _ = self.do_remove(OrderUpdate::Cancel { order_id: id }, id);
+                    }
+                }
+                OpResult::Bulk
+            }
+            Op::Burst { n, spec } => {
+                for _ in 0..*n {
+                    if self.dead {
+                        break;
+                    }
+                    self.bulk_counter += 1;
+                    let id = bulk_id(self.bulk_counter);
+                    let mut sp = *spec;
+                    sp.display = sp.display.min(5);
+                    sp.hidden = sp.hidden.min(5);
+                    let _ = self.add_with_id(id, sp);
+                }
+                OpResult::Bulk
+            }
             Op::GhostAdd { spec } => {
                 let mut spec = *spec;
                 if self.ts_mode == TsMode::Increasing {
@@ -952,10 +1122,17 @@ impl Interp {
         let order = spec.build(id, self.price);
         self.note(|| format!("add {}", brief(&order)));
         self.concrete.push(Concrete::Add(order));
-        if let Err(m) = catch(|| self.level.add_order(order)) {
-            self.violate(Oracle::Panic, format!("add_order panicked: {m}"));
-            self.dead = true;
-            return OpResult::Aborted;
+        match catch(|| self.level.add_order(order)) {
+            Ok(handle) => {
+                if self.hold {
+                    self.held.push(handle);
+                }
+            }
+            Err(m) => {
+                self.violate(Oracle::Panic, format!("add_order panicked: {m}"));
+                self.dead = true;
+                return OpResult::Aborted;
+            }
         }
         self.clock += 1;
         let total = order.visible_quantity() as u128 + order.hidden_quantity() as u128;
@@ -1301,7 +1478,14 @@ impl Interp {
     fn call_update(&mut self, u: OrderUpdate) -> Option<Result<Option<Arc<Order>>, String>> {
         self.concrete.push(Concrete::Update(u));
         match catch(|| self.level.update_order(u)) {
-            Ok(r) => Some(r.map_err(|e| e.to_string())),
+            Ok(r) => {
+                if self.hold {
+                    if let Ok(Some(a)) = &r {
+                        self.held.push(a.clone());
+                    }
+                }
+                Some(r.map_err(|e| e.to_string()))
+            }
             Err(m) => {
                 self.violate(Oracle::Panic, format!("update_order({}) panicked: {m}", u));
                 self.dead = true;
@@ -1462,64 +1646,45 @@ impl Interp {
     fn do_read(&mut self, k: ReadKind) -> OpResult {
         let before = self.fingerprint();
         self.facts.reads += 1;
-        let level = &self.level;
-        let r = catch(|| match k {
-            ReadKind::Aggregates => {
-                let _ = (
-                    level.price(),
-                    level.visible_quantity(),
-                    level.hidden_quantity(),
-                    level.order_count(),
-                    level.total_quantity(),
-                );
-            }
-            ReadKind::IterOrders => {
-                let _ = level.iter_orders();
-            }
-            ReadKind::Snapshot => {
-                let s = level.snapshot();
-                let _ = (s.total_quantity(), s.iter_orders().count(), s.to_string());
-            }
-            ReadKind::Package => {
-                let p = level.snapshot_package().expect("snapshot_package");
-                p.validate().expect("own package validates");
-            }
-            ReadKind::SnapshotJson => {
-                let _ = level.snapshot_to_json().expect("snapshot_to_json");
-            }
-            ReadKind::Display => {
-                let _ = level.to_string();
-            }
-            ReadKind::SerdeJson => {
-                let _ = serde_json::to_string(level).expect("serialize level");
-            }
-            ReadKind::Stats => {
-                let s = level.stats();
-                let _ = (
-                    s.orders_added(),
-                    s.orders_removed(),
-                    s.orders_executed(),
-                    s.quantity_executed(),
-                    s.value_executed(),
-                    s.average_execution_price(),
-                    s.average_waiting_time(),
-                    s.time_since_last_execution(),
-                    s.to_string(),
-                    serde_json::to_string(&*s).expect("serialize stats"),
-                );
-            }
-            ReadKind::Data => {
-                let d = PriceLevelData::from(level);
-                let _ = d.orders.len();
-            }
-        });
-        if let Err(m) = r {
+        self.concrete.push(Concrete::Read(k));
+        if let Err(m) = perform_read(&self.level, k) {
             self.violate(Oracle::Update, format!("read-only call {:?} failed: {m}", k));
+        }
+        if matches!(k, ReadKind::Snapshot | ReadKind::Package | ReadKind::SnapshotJson) {
+            self.check_snapshot_figures();
         }
         if self.fingerprint() != before {
             self.violate(Oracle::Update, format!("read-only call {:?} changed the level", k));
         }
         OpResult::Read
+    }
+
+    /// C01: the snapshot's figures agree with the listing (checked at snapshot-type reads and at
+    /// the end of a history, not after every step: the interpreter's own per-step observations
+    /// are limited to the listing and the aggregate getters)
+    pub fn check_snapshot_figures(&mut self) {
+        let listing = listing_of(&self.level);
+        let sum_vis: u128 = listing.iter().map(|o| o.visible_quantity() as u128).sum();
+        let sum_hid: u128 = listing.iter().map(|o| o.hidden_quantity() as u128).sum();
+        let snap = self.level.snapshot();
+        let mut a: Vec<Order> = snap.orders.iter().map(|x| **x).collect();
+        let mut b = listing.clone();
+        a.sort_by_key(|o| o.id().to_string());
+        b.sort_by_key(|o| o.id().to_string());
+        if snap.visible_quantity as u128 != sum_vis
+            || snap.hidden_quantity as u128 != sum_hid
+            || snap.order_count != listing.len()
+            || snap.price != self.price
+            || a != b
+        {
+            self.violate(
+                Oracle::Agg,
+                format!(
+                    "snapshot says visible={} hidden={} count={} with {} orders, but the level lists {} orders summing to {} / {}",
+                    snap.visible_quantity, snap.hidden_quantity, snap.order_count, snap.orders.len(), listing.len(), sum_vis, sum_hid
+                ),
+            );
+        }
     }
 
     fn do_rebuild(&mut self, p: RebuildPath) -> OpResult {
@@ -1632,6 +1797,9 @@ pub fn run_history_with(h: &History, skip_reads: bool, keep_trace: bool, excuse:
         if it.dead {
             break;
         }
+    }
+    if !it.dead {
+        it.check_snapshot_figures();
     }
     (it, results)
 }
